@@ -232,8 +232,11 @@ TQuiescent ==
            all(i) == IF i > Len(Ev.nodes) THEN <<>>
                      ELSE (IF i \in idx THEN Chk(InService(Ev.nodes[i]), "Live_C08_RolledBack",
                                                  "quiescent:" \o NotInServiceSig(Ev.nodes[i]) \o ":" \o owner(Ev.nodes[i].claim))
-                           ELSE <<>>) \o all(i + 1) IN
-       viol' = viol \o all(1)
+                           ELSE <<>>) \o all(i + 1)
+           \* a command that met a failure (or whose retry window has closed) is not still in progress once the queue ran
+           stuck == {k \in Active(st) : st.cmds[k].failure # "none" \/ Ev.t - st.cmds[k].startedAt > st.cfg.timeoutSec}
+           stuckSig(k) == "quiescent:still-in-progress:" \o (IF st.cmds[k].failure # "none" THEN st.cmds[k].failure ELSE "timeout") IN
+       viol' = viol \o all(1) \o (IF stuck = {} THEN <<>> ELSE Chk(FALSE, "Live_C08_RolledBack", stuckSig(CHOOSE k \in stuck : TRUE)))
     /\ UNCHANGED st
 
 TOther == Ev.e \in {"Tick", "World", "Obj", "Note", "Prov", "Cands", "Budget", "Cmd", "QCmd", "OSkip", "OCut", "EndTrace", "Mem"}
